@@ -1,6 +1,7 @@
 package sim
 
 import (
+	"sync/atomic"
 	"testing"
 	"testing/synctest"
 	"time"
@@ -95,7 +96,7 @@ func joinScenario(r *Run, mode string) {
 
 	ctl := NewCtl()
 	var delL, delR []deliveredRec
-	closedL, closedR := false, false
+	var closedL, closedR atomic.Bool // set by the sources, read by the sink and by the controller
 	srcL := &ScriptSource{Name: "L", Msgs: scriptL, Ctl: ctl}
 	srcR := &ScriptSource{Name: "R", Msgs: scriptR, Ctl: ctl}
 	srcL.OnDeliver = func(i int) {
@@ -108,8 +109,8 @@ func joinScenario(r *Run, mode string) {
 			delR = append(delR, deliveredRec{m.Values, m.Retr, m.ET})
 		}
 	}
-	srcL.OnEOS = func() { closedL = true }
-	srcR.OnEOS = func() { closedR = true }
+	srcL.OnEOS = func() { closedL.Store(true) }
+	srcR.OnEOS = func() { closedR.Store(true) }
 
 	var node execution.Node
 	if kind == JoinInner {
@@ -123,8 +124,7 @@ func joinScenario(r *Run, mode string) {
 	var lastWM time.Time
 	wmCount := 0
 	produce := func(ctx execution.ProduceContext, rec execution.Record) error {
-		r.Log("  out %s", Msg{Kind: MsgRec, Values: rec.Values, Retr: rec.Retraction, ET: rec.EventTime})
-		r.AddEvents(1)
+		r.SinkLog("  out %s", Msg{Kind: MsgRec, Values: rec.Values, Retr: rec.Retraction, ET: rec.EventTime})
 		outs = append(outs, outRec{rec.Values, rec.Retraction, rec.EventTime})
 		d := 1
 		if rec.Retraction {
@@ -142,8 +142,7 @@ func joinScenario(r *Run, mode string) {
 	}
 	metaSend := func(ctx execution.ProduceContext, msg execution.MetadataMessage) error {
 		w := msg.Watermark
-		r.Log("  out wm(%s)", Sec(w))
-		r.AddEvents(1)
+		r.SinkLog("  out wm(%s)", Sec(w))
 		wmCount++
 		if mode == "C18" && w.Before(lastWM) {
 			r.Violate("C18", "watermark_regressed", attrs, "watermark %s emitted after %s", Sec(w), Sec(lastWM))
@@ -171,7 +170,7 @@ func joinScenario(r *Run, mode string) {
 			want := RefJoin(kind, consolidateUpTo(delL, w, false), consolidateUpTo(delR, w, false), keyIdx, keyIdx, 3, 3, false, nil)
 			if d := got.Diff(want); d != "" {
 				a := cloneAttrs(attrs)
-				a["phase"] = phaseName(closedL, closedR)
+				a["phase"] = phaseName(closedL.Load(), closedR.Load())
 				r.Violate("C19", "at_watermark", a, "at emitted watermark %s consolidated output != join of input with event time <= W: %s", Sec(w), d)
 			}
 		}
@@ -197,7 +196,7 @@ func joinScenario(r *Run, mode string) {
 		schedule = append(schedule, key[0])
 		if key[len(key)-1] == 's' { // eos
 			schedule = append(schedule, '$')
-			otherOpen := (key[0] == 'L' && !closedR) || (key[0] == 'R' && !closedL)
+			otherOpen := (key[0] == 'L' && !closedR.Load()) || (key[0] == 'R' && !closedL.Load())
 			if otherOpen {
 				r.Probe("closed_first_" + string(key[0]))
 			}
@@ -207,6 +206,7 @@ func joinScenario(r *Run, mode string) {
 	oc := RunGated(r, node, ctl, produce, metaSend, choose, 10000)
 	runErr, finished, deadlock := oc.Err, oc.Finished, oc.Deadlock
 	r.Sched(string(schedule))
+	r.AddEvents(len(outs) + wmCount)
 	r.NonTrivial(len(scriptL)+len(scriptR) >= 2 && len(schedule) >= 3)
 	r.AddSimTime(int64(time.Duration(len(scriptL)+len(scriptR)) * time.Second))
 
